@@ -77,7 +77,7 @@ def gen_source(rng):
             extra.append(rng.choice(["face_lonlat", "face_xyz"]))
         if rng.random() < 0.35:
             extra += ["edge_nodes"] + ([rng.choice(["edge_lonlat", "edge_xyz"])] if rng.random() < 0.6 else [])
-        spec["dialect"] = {"lon360": rng.random() < 0.3, "extra": extra, "start": rng.choice([0, 1]), "xyz_scale": rng.choice([1.0, 1.0, 1.0, 2.0])}
+        spec["dialect"] = {"lon360": rng.random() < 0.3, "extra": extra, "start": rng.choice([0, 1]), "xyz_scale": rng.choice([1.0, 1.0, 1.0, 2.0]), "edge_flip": rng.random() < 0.5}
     elif r < 0.88:
         spec["prov"] = rng.choice(["vertices", "vertices_xyz"])
     else:
